@@ -518,6 +518,33 @@ def _rewrite_chunk_fold(body, applied):
     return body[:k] + new_tail + "}"
 
 
+def _rewrite_rev_range(body, applied):
+    """R29: `for v in (A..=B).rev() { S }`  ->  `let mut v_: T = B; while v_ >= A { let v = v_; S  v_ = v_ - 1; }`
+    (vstd has no specification for Rev<RangeInclusive>; equal to the for loop whenever A >= 1, and for A = 0 the final
+    decrement fails Verus' underflow check, so the rewrite can never hide a difference)."""
+    for _ in range(8):
+        sb = Src("<b>", body)
+        m = None
+        for mm in re.finditer(r'\bfor\s+(\w+)\s+in\s+\(\s*([^()]+?)\s*\.\.=\s*([^()]+?)\s*\)\s*\.rev\(\)\s*\{', body):
+            if sb.mask[mm.start()]:
+                m = mm
+                break
+        if not m:
+            return body
+        var, lo, hi = m.group(1), m.group(2), m.group(3)
+        o = m.end() - 1
+        c = sb.match_close(o)
+        inner = body[o + 1:c]
+        si = Src("<i>", inner)
+        for bm in re.finditer(r'\b(break|continue)\b', inner):
+            if si.mask[bm.start()]:
+                raise Unsupported("R29: reversed range loop contains " + bm.group(1))
+        new = f"let mut {var}_ = {hi};\n        while {var}_ >= {lo} {{\n            let {var} = {var}_;{inner}\n            {var}_ = {var}_ - 1;\n        }}"
+        body = body[:m.start()] + new + body[c + 1:]
+        applied.append(("R29", f"for {var} in ({lo}..={hi}).rev()", f"while {var}_ >= {lo} with {var}_ counting down from {hi}"))
+    return body
+
+
 def _tail_start(body):
     """offset in `body` ('{...}') where the tail expression starts (after the last top-level statement)"""
     s = Src("<b>", body)
@@ -693,6 +720,8 @@ def build_fn(unit, item, imp, fnitem, spec: Fn, cover=False):
         if n21:
             applied.append(("R21", "a + b / a - b / a * b / a op= b", f"core::ops::<Trait>::<method>(a, b) x{n21}"))
     body = _rewrite_continue(body, applied)
+    if re.search(r'\)\s*\.rev\(\)\s*\{', body):
+        body = _rewrite_rev_range(body, applied)
     if re.search(r'\.\s*chunks\s*\(', body):
         body = _rewrite_chunk_fold(body, applied)
     if getattr(unit, "tail_assert", False):
